@@ -148,7 +148,49 @@ JudgeParsed(e) ==
           (pr.ok /\ o.has_tree /\ Len(o.nodes) = Len(pr.ns)) => DocsOK(pr.ns, o.nodes, d, tk))
      /\ J("C20", e, "syntax-error message vs. the parser's expectation set", C20ok(o, e.expected))
 
+-----------------------------------------------------------------------------
+(* C14: a malformed member costs only itself.  e.garbage = <<g1, g2>>: piece indices of the first token of *)
+(* the garbage member and of its terminator.                                                               *)
+MemberClasses == {"method", "const", "field", "elem"}
+
+\* structure of a node with the member index erased
+Shape(n) == [c |-> n.c, n |-> n.n, a |-> n.a, b |-> n.b, ann |-> n.ann,
+             rest |-> IF Len(n.p) >= 2 /\ n.p[1] = "item" THEN SubSeq(n.p, 3, Len(n.p)) ELSE n.p]
+
+JudgeRecovery(e) ==
+  LET d == e.pieces
+      o == e.pobs
+      g1 == e.garbage[1]
+      g2 == e.garbage[2]
+      d0 == SubSeq(d, 1, g1 - 1) \o SubSeq(d, g2 + 1, Len(d))
+      pr == ParseDoc(d)
+      pr0 == ParseDoc(d0)
+      tab == Tab(d)
+      lo == tab[g1].s[1]
+      hi == tab[g2].e[1]
+      Inside(r) == lo <= r[1] /\ r[2] <= hi
+      \* members the recovery salvaged from inside the garbage (allowed), with their subtrees
+      Salv == {i \in DOMAIN o.nodes : Len(o.nodes[i].p) = 2 /\ o.nodes[i].c \in MemberClasses /\ Inside(o.nodes[i].full)}
+      Dropped(i) == \E m \in Salv : IsPfx(o.nodes[m].p, o.nodes[i].p)
+      Kept == SortedSeq({i \in DOMAIN o.nodes : ~Dropped(i)})
+      obsShapes == [k \in DOMAIN Kept |-> Shape(o.nodes[Kept[k]])]
+      expShapes == [k \in DOMAIN pr0.ns |-> Shape([pr0.ns[k] EXCEPT !.ann = @])]
+      S == SyntaxIx(o.diags)
+  IN IF pr.ok \/ ~pr0.ok THEN TRUE      \* the filling happens to be a member (or the frame is broken): not a C14 case
+     ELSE /\ J("C14", e, "no tree although only one member is malformed", o.has_tree)
+          /\ J("C14", e, "a well-formed sibling is missing, duplicated or changed",
+               o.has_tree => (/\ Len(obsShapes) = Len(expShapes)
+                              /\ \A k \in DOMAIN expShapes :
+                                    /\ obsShapes[k].c = expShapes[k].c /\ obsShapes[k].n = expShapes[k].n
+                                    /\ obsShapes[k].b = expShapes[k].b /\ obsShapes[k].rest = expShapes[k].rest
+                                    /\ (expShapes[k].a = "{*}" \/ obsShapes[k].a = expShapes[k].a)
+                                    /\ AnnNorm(obsShapes[k].ann) = expShapes[k].ann))
+          /\ J("C14", e, "no Error reported", \E k \in DOMAIN o.diags : o.diags[k].sev = "E")
+          /\ J("C14", e, "a syntax Error lies outside the malformed member",
+               \A k \in DOMAIN S : Inside(o.diags[S[k]].r))
+
 TAdd(e) ==
+  /\ (IF Fld(e, "garbage") /\ Fld(e, "pieces") /\ Fld(e, "pobs") THEN JudgeRecovery(e) ELSE TRUE) = TRUE
   \* (compared with TRUE so that TLC evaluates the judgement as an expression, where LET definitions are cached)
   /\ (IF Fld(e, "pieces") /\ Fld(e, "pobs") THEN JudgeParsed(e) ELSE TRUE) = TRUE
   /\ IF Has(e.i) THEN AddContent(e.i, IdOf(e), e.cid) ELSE store' = Put(store, e.i, Put(Empty, IdOf(e), e.cid))
